@@ -10,6 +10,7 @@ import (
 	"strconv"
 
 	"verifmc/props/c05"
+	"verifmc/props/c07"
 	"verifmc/props/c14"
 )
 
@@ -35,6 +36,16 @@ func main() {
 		fmt.Printf("race-pass executions=%d\n", n)
 		if mismatch != "" {
 			fmt.Printf("SCHEDULE MISMATCH: %s\n", mismatch)
+			os.RemoveAll(dir)
+			os.Exit(67)
+		}
+		return
+	}
+	if len(os.Args) > 3 && os.Args[3] == "c07" {
+		n, mismatch := c07.RacePass(dir, iters)
+		fmt.Printf("race-pass executions=%d\n", n)
+		if mismatch != "" {
+			fmt.Printf("VIEW MISMATCH: %s\n", mismatch)
 			os.RemoveAll(dir)
 			os.Exit(67)
 		}
